@@ -17,6 +17,15 @@ class GFA2ToGFA1:
     """
     a = ["S", self.field_to_s("name", tag = False),
               self.field_to_s("sequence", tag = False)]
+    try:
+      # a GFA2 identifier or sequence may have no GFA1 spelling
+      gfapy.Field._validate_gfa_field(a[1], "segment_name_gfa1")
+      gfapy.Field._validate_gfa_field(a[2], "sequence_gfa1")
+    except gfapy.FormatError:
+      raise gfapy.RuntimeError(
+        "Conversion of segment line from GFA2 to GFA1 failed\n"+
+        "Name or sequence not compatible with GFA1\n"+
+        "Segment line: {}\n".format(str(self)))
     a.append(gfapy.Field._to_gfa_tag(self.slen, slen_tag, datatype = "i"))
     for fn in self.tagnames:
       a.append(self.field_to_s(fn, tag = True))
